@@ -315,6 +315,7 @@ PROPS["C03"] = {
         "GstProofs.C03.triangle_bounds", "GstProofs.C03.wendland0_bounds", "GstProofs.C03.wendland1_bounds",
         "GstProofs.C03.wendland2_bounds", "GstProofs.C03.penta_bounds", "GstProofs.C03.reg1d_bounds",
         "GstProofs.C03.reg1d_beyond", "GstProofs.C03.redDist2_neg", "GstProofs.C03.rotation_preserves_norm",
+        "GstProofs.C03.gamma_bounds", "GstProofs.C03.cauchy_bounds", "GstProofs.C03.maternHalfPoly_spec",
     ],
     "harnesses": ["vh_c03"],
     "level": "proof",
@@ -324,7 +325,7 @@ PROPS["C03"] = {
     "rule": "every ECov offered by CovFactory in dimension 1, 2, 3 x 4 (quick) / 60 (thorough) repetitions: 6 closed-form probes along the first axis (unit sill, random range and parameter); one anisotropic rotated 1-2 variable model: 4 symmetry / bound / variogram-form probes and one 4-9 point covariance (or increment) matrix certified PSD with tau = 2^-36 of its scale. distinct = distinct request line",
     "trivial": lambda line: False,
     "trusted_base": TB_COMMON + ["exact LDLt certificate checker", "rational enclosure of exp"],
-    "uncovered": ["positive definiteness for all point sets (only certified instances)", "generalised covariances of order >= 1", "Matern / Bessel / Gamma / Stable / Cauchy / Storkey / sine cardinal values (no rational closed form in the model)", "covariances on the sphere", "non-stationary models"],
+    "uncovered": ["positive definiteness for all point sets (only certified instances)", "generalised covariances of order >= 1", "Matern (parameter not 1/2, 3/2, 5/2) / Bessel / Gamma and Cauchy (non-integer exponent) / Stable (exponent not 1, 2) / Storkey / sine cardinal values: no rational closed form in the model", "covariances on the sphere", "non-stationary models"],
     "assumptions": [],
 }
 
